@@ -90,7 +90,7 @@ def run(ctx: core.Ctx) -> core.Outcome:
         raise core.MachineryFailure("the unserialized protocol is expected to violate AtMostOneAcceptedPerBase (vacuity guard)")
     scratch = tlc.new_scratch("ms")
     try:
-        res = tlc.dump_graph("MethodSave", "MethodSaveSchedules2.cfg" if ctx.quick else "MethodSaveSchedules.cfg",
+        res = tlc.dump_graph("MethodSave", "MethodSaveSchedules.cfg",
                              scratch / "g.dot", timeout=900)
         g = dotgraph.Graph.load(scratch / "g.dot")
     finally:
